@@ -315,7 +315,7 @@ def run(ctx):
             [True, 'probe', 'findall', [['str', '01'], 100, 20000, 7, False]],
             [True, 'probe', 'find', [['str', '1'], 9000, None, None, False]],
             [True, 'probe', 'rfind', [['str', '1'], None, 20000, None, False]]]})
-    n = ctx.scale(8000, 250000)
+    n = ctx.scale(48000, 500000)
     lengths = [0, 1, 7, 8, 9, 16, 17, 24, 33, 64, 65, 100, 129, 257]
     for i in range(n):
         r = ctx.rng.random()
@@ -327,7 +327,7 @@ def run(ctx):
         ctx.run_case(lambda c, k: episode(c, k, ns), case)
         if i % 499 == 0:
             ctx.sample({'cls': case['cls'], 'init': case['init'][:48], 'steps': case['steps'][:5]})
-    for i in range(ctx.scale(600, 20000)):
+    for i in range(ctx.scale(3000, 40000)):
         ctx.run_case(order_case, gen_order(ctx))
     bitstring.options.lsb0 = False
 
